@@ -40,7 +40,7 @@ CLAIMED = {
         design='DESIGN.md §6 C01',
         technique='Lean 4 proof (loop invariants for LU and Cholesky, P.A = L.U, L.L^T = A, solve correctness and totality via Mathlib Matrix, standard-model rounding bounds) + bit-exact correspondence + exact residual oracle'),
     "C03": dict(
-        text=("Kernel-checked theorems: inverse-CDF laws over R for Exponential, Pareto, Gumbel, Uniform (F(sample u) = u or 1-u for every u in (0,1)) and Bernoulli; exact characterisations of the Poisson multiplication method (returns k iff the running product of uniforms first drops to e^-lambda at k) and of binomial inversion (walks C(n,x)p^x q^(n-x), returns the generalised inverse CDF, result <= n, for every n); textbook compositions (ChiSquared = Gamma(k/2, 1/2), Beta = X/(X+Y) in draw order incl. the underflow branch, T formula, MVN = mu + L z via the C05 product theorem, binomial flip, regime routing, Gamma boost below shape 1); support and shape (Pareto >= x_m, Exponential >= 0, Uniform in [a,b], Gamma > 0, counts >= 0, sample_n length and consecutive draws, sample_matrix / MVN shapes); the three 128-entry Ziggurat tables regenerated from the source are exactly consistent (K, Y, W, R relations in rational arithmetic), so editing one entry breaks a proof. PARTIAL: the laws of the rejection samplers (Ziggurat, Marsaglia-Tsang and hence beta/chi-squared/t, PTRS, BTPE), loop termination and RNG quality are not provable here; they are decided by the bit-exact tie of 2000-draw streams + final RNG state for every distribution x regime x seed and by the property's own DKW criterion (alpha = 1e-12, n = 2e5 quick / 4e6 thorough) against scipy CDFs. Two open findings are listed in known_findings.txt."),
+        text=("Kernel-checked theorems: inverse-CDF laws over R for Exponential, Pareto, Gumbel, Uniform (F(sample u) = u or 1-u for every u in (0,1)) and Bernoulli; exact characterisations of the Poisson multiplication method (returns k iff the running product of uniforms first drops to e^-lambda at k) and of binomial inversion (walks C(n,x)p^x q^(n-x), returns the generalised inverse CDF, result <= n, for every n); textbook compositions (ChiSquared = Gamma(k/2, 1/2), Beta = X/(X+Y) in draw order incl. the underflow branch, T formula, MVN = mu + L z via the C05 product theorem, binomial flip, regime routing, Gamma boost below shape 1); support and shape (Pareto >= x_m, Exponential >= 0, Uniform in [a,b], Gamma > 0, counts >= 0, sample_n length and consecutive draws, sample_matrix / MVN shapes); the three 128-entry Ziggurat tables regenerated from the source are exactly consistent (K, Y, W, R relations in rational arithmetic), so editing one entry breaks a proof. SUPPORT of the rejection samplers (Props/C03Support): Poisson draws (multiplication and PTRS) are naturals for every rate, Binomial draws (inversion, BTPE, flip) are naturals <= n for every n and p, Beta in [0,1], Ziggurat accepting branches return mu +- x sigma with real x >= 0. PARTIAL: the laws of the rejection samplers (Ziggurat, Marsaglia-Tsang and hence beta/chi-squared/t, PTRS, BTPE), loop termination and RNG quality are not provable here; they are decided by the bit-exact tie of 2000-draw streams + final RNG state for every distribution x regime x seed and by the property's own DKW criterion (alpha = 1e-12, n = 2e5 quick / 4e6 thorough) against scipy CDFs. Two open findings are listed in known_findings.txt."),
         design='DESIGN.md §6 C03',
         technique='Lean 4 proof (inverse-CDF algebra over R, loop characterisations, exact table arithmetic) + bit-exact stream correspondence + DKW search'),
     "C09": dict(
@@ -56,7 +56,7 @@ CLAIMED = {
         design='DESIGN.md §6 C11',
         technique='Lean 4 proof (column-loop invariant for P.A = L.U, Cholesky sweep invariant, cycle-shortening invariant for parity = Equiv.Perm.sign) + bit-exact correspondence + exact reconstruction oracle'),
     "C13": dict(
-        text=('Kernel-checked theorems over an ordered field: acovf/acf equal the biased-estimator sums, are even in the lag (for any scalar type), acf(0) = 1 for non-zero variance, |acf k| <= 1 (Cauchy-Schwarz), lags |k| >= n give 0; difference o cumsum; AR fit: intercept = mean and, given an exact inverse of the Toeplitz matrix, the coefficients satisfy the Yule-Walker equations; predict_one / predict equal mean + the AR recursion on the mean-centred history for every history length; fit and forecasts are shift-equivariant (series + c gives every forecast + c). With the proved solver correctness the Yule-Walker statement holds unconditionally for a non-singular Toeplitz matrix. PARTIAL: convergence of forecasts to the mean and rounding are decided by the bit-exact tie plus exact-integer / 240-bit mpmath oracles with a-priori rounding bounds, paired shifted runs and a horizon-1000 convergence check.'),
+        text=('Kernel-checked theorems over an ordered field: acovf/acf equal the biased-estimator sums, are even in the lag (for any scalar type), acf(0) = 1 for non-zero variance, |acf k| <= 1 (Cauchy-Schwarz), lags |k| >= n give 0; difference o cumsum; AR fit: intercept = mean and, given an exact inverse of the Toeplitz matrix, the coefficients satisfy the Yule-Walker equations; predict_one / predict equal mean + the AR recursion on the mean-centred history for every history length; fit and forecasts are shift-equivariant (series + c gives every forecast + c). With the proved solver correctness the Yule-Walker statement holds unconditionally for a non-singular Toeplitz matrix. Forecasts converge to the series mean whenever sum|phi_j| < 1 (explicit geometric bound) and whenever all roots of the characteristic polynomial lie inside the unit disc (Gelfand formula on the companion matrix; Props/C13Conv). PARTIAL: that a fit is stationary, and convergence of forecasts to the mean and rounding are decided by the bit-exact tie plus exact-integer / 240-bit mpmath oracles with a-priori rounding bounds, paired shifted runs and a horizon-1000 convergence check.'),
         design='DESIGN.md §6 C13',
         technique='Lean 4 proof (finite-sum algebra, Cauchy-Schwarz, recursion by induction over the horizon) + bit-exact correspondence'),
     "C14": dict(
@@ -92,7 +92,7 @@ CLAIMED = {
               "unchanged iff the ridge-penalised score equations hold at mu = g^-1(X beta + offset); the six family tables (link, derivative, variance, deviance terms), "
               "Gaussian deviance = residual sum of squares and Gaussian fixed points = weighted ridge normal equations; `fit` returns Err iff not converged within the budget "
               "and on Ok the last two penalised deviances differ relatively by < tolerance; accessor formulas (dispersion, covariance = dispersion * inverse information, "
-              "standard errors, predict = inverse link of x.beta + offset, aic, bic); score, information, deviance, every iterate of the loop and the whole `fit` result (status, coefficients, deviance, information; predictions permuted accordingly) are invariant under any permutation of the observations; with the proved solver correctness the fixed-point and Gaussian normal-equation theorems hold for the model's own `solve` on non-singular information matrices. PARTIAL: that the convergence test implies a small score, rounding, and solver correctness (hypothesis; C01) are not proved - "
+              "standard errors, predict = inverse link of x.beta + offset, aic, bic); score, information, deviance, every iterate of the loop and the whole `fit` result (status, coefficients, deviance, information; predictions permuted accordingly) are invariant under any permutation of the observations; with the proved solver correctness the fixed-point and Gaussian normal-equation theorems hold for the model's own `solve` on non-singular information matrices. The deviances equal the textbook unit deviances (Poisson with 0 ln 0 = 0, Bernoulli, Gamma, Exponential, Gaussian) on the valid domain, are >= 0 and vanish iff y = mu (Props/C06Dev). PARTIAL: that the convergence test implies a small score, rounding, and solver correctness (hypothesis; C01) are not proved - "
               "they are decided per run by the bit-exact tie (all reply fields) plus a 50-digit mpmath stationarity/inference oracle."),
         design="DESIGN.md §6 C06",
         technique="Lean 4 proof (entry-wise sum algebra, fixed-point characterisation, induction over scoring iterations, permutation of Finset sums) + bit-exact correspondence"),
@@ -102,7 +102,7 @@ CLAIMED = {
               "actual doubles of the node/weight tables regenerated from the source on every run, its odd moments are exactly 0 and even moments up to degree 18 "
               "are within 1e-16 of 2/(d+1) (exact rational arithmetic on the decoded bit patterns); Romberg levels 1-3 are the trapezoid/Simpson/Boole rules with "
               "cubic and quintic exactness for every tolerance; sampled `trapezoid` equals the piecewise-linear integral, is additive and agrees with the dx form on "
-              "uniform grids. Romberg for EVERY level count: the model computes the textbook tableau, is linear, antisymmetric in the limits and vanishes for a = b, never exits early at eps = 0, its column 0 is the trapezoid rule with 2^n panels, and with k levels it integrates every polynomial of degree <= 2k-1 exactly (Euler-Maclaurin for monomials from Mathlib's Bernoulli/Faulhaber results + Richardson elimination). PARTIAL: the order-of-tolerance clause for smooth integrands and all rounding are decided by the bit-exact tie plus an "
+              "uniform grids. Romberg for EVERY level count: the model computes the textbook tableau, is linear, antisymmetric in the limits and vanishes for a = b, never exits early at eps = 0, its column 0 is the trapezoid rule with 2^n panels, and with k levels it integrates every polynomial of degree <= 2k-1 exactly (Euler-Maclaurin for monomials from Mathlib's Bernoulli/Faulhaber results + Richardson elimination). quad5 on ARBITRARY intervals: for every polynomial of degree <= 19, |quad5 - integral| <= 1e-16 |xr| sum|c_k|(|xm|+|xr|)^k with a genuine interval integral, exact when the shifted polynomial is odd (Props/C07Quad). PARTIAL: the order-of-tolerance clause for smooth integrands and all rounding are decided by the bit-exact tie plus an "
               "exact-rational/mpmath oracle (including the exactly decided stop rule), not by proof."),
         design="DESIGN.md §6 C07",
         technique="Lean 4 proof (Mathlib trapezoidal rule transfer, exact dyadic table arithmetic, ring identities) + translated tables + bit-exact correspondence"),
@@ -130,7 +130,7 @@ CLAIMED = {
               "reshape_mut / new incl. the inferred -1 dimension); every operation refines the plain row-major reference (transpose, layout conversion, hcat, vcat, "
               "repeats, row/column extraction and maps, indexing, reshape keeps the flat data) for all shapes; diag, eye, diag_matrix, toeplitz, vandermonde, design, "
               "linspace (n points, first a, last b, constant step) and arange (ceil count, half-open) patterns; rotations are orthogonal with determinant 1 and cw = ccw^T in "
-              "any commutative ring with c^2+s^2=1; predicates equal their definitions and close_to never equates values of opposite sign. Tied bit for bit to the Rust "
+              "any commutative ring with c^2+s^2=1; predicates equal their definitions and close_to never equates values of opposite sign; ONE SIMULATION THEOREM over whole programs (Props/C15Sim): every program of the 19 operations - panics included, also in sessions that catch them - commutes with an independent list-of-rows reference model (the Vec<Vec<f64>> model of the quantifier), for programs that never operate on a 0-row matrix (side condition shown necessary). Tied bit for bit to the Rust "
               "code by stateful random programs (1..40 ops, 1..8 rows/cols) and constructor sweeps; independent list-of-rows oracle."),
         design="DESIGN.md §6 C15",
         technique="Lean 4 proof (invariant by induction over operation lists, row-view refinement, ring/linear_combination) + bit-exact stateful correspondence"),
